@@ -234,6 +234,10 @@ def absorb_cmp(model, rep, rule, kinds):
         _C05_CACHE.clear()
         _C05_CACHE[key] = dep
     dep = _C05_CACHE[key]
+    # a value of a base kind may be an instance of its sub-kind (an Angle threshold for an AngularPosition reading): Python then
+    # asks the sub-kind's (reflected) comparison first, so the sub-kinds of the compared kinds belong to the dependency
+    from sa.spec.si import SUBKINDS as _SUB
+    kinds = tuple(kinds) + tuple(sub for sub, base in _SUB.items() if base in kinds and sub not in kinds)
     pairs = set()
     for a in kinds:
         for b in kinds:
@@ -305,6 +309,35 @@ def package_lints(model, rep, rule, paths):
             n += 1
             rep.violation(rule, f'{cname}.{attr}:descriptor', detail, f'{mod}:{ln}')
     import ast as _ast
+    # `obj.__x = v` written OUTSIDE a class body is not name-mangled: it creates a new attribute `__x` and leaves the private field
+    # `_Class__x` (what the class's own code reads) as it was
+    for fname, (mod, fn) in model.functions.items():
+        if not any(p_ in mod for p_ in paths):
+            continue
+        for x in _ast.walk(fn):
+            if isinstance(x, _ast.Attribute) and isinstance(x.ctx, _ast.Store) and x.attr.startswith('__') and not x.attr.endswith('__'):
+                n += 1
+                rep.violation(rule, f'{fname}:unmangled-store[{x.attr}]',
+                              f'`{_ast.unparse(x)} = ...` in a module-level function is not name-mangled: it sets a new attribute `{x.attr}` instead of the '
+                              f'private field `_<Class>{x.attr}` the class reads, which keeps its old value', f'{mod}:{x.lineno}')
+    # a closure over `self` kept ON the object (`self.__samplers[k] = lambda: self.x`): copy.deepcopy treats functions as atoms, so
+    # the closures of a copied object still read the ORIGINAL object - the copy records / computes from somebody else's state
+    for cname, ci in model.classes.items():
+        if not any(p_ in ci.module for p_ in paths):
+            continue
+        for mem in ci.all_members():
+            for x in _ast.walk(mem.node):
+                if isinstance(x, _ast.Assign) and isinstance(x.value, _ast.Lambda) and any(
+                        isinstance(nm, _ast.Name) and nm.id == 'self' for nm in _ast.walk(x.value.body)):
+                    for t in x.targets:
+                        root_ = t
+                        while isinstance(root_, (_ast.Attribute, _ast.Subscript)):
+                            root_ = root_.value
+                        if isinstance(t, (_ast.Attribute, _ast.Subscript)) and isinstance(root_, _ast.Name) and root_.id == 'self':
+                            n += 1
+                            rep.violation(rule, f'{mem.qualname}:stored-closure@{x.lineno}',
+                                          f'`{_ast.unparse(x)[:70]}` keeps a function that closes over `self` on the object itself: a deep copy of the '
+                                          f'object shares the function, which goes on reading the original', f'{ci.module}:{x.lineno}')
     for cname, ci in model.classes.items():
         for mem in ci.all_members():
             if any(p_ in ci.module for p_ in paths) and any('cache' in _ast.unparse(d) for d in mem.node.decorator_list) and any(
@@ -318,5 +351,5 @@ def package_lints(model, rep, rule, paths):
             rep.violation(rule, f'{fname}:memoised', 'memoised over object state: a later call gets the remembered value', f'{mod}:{fn.lineno}')
     if n == 0:
         rep.holds(rule, 'hidden-state lints', f'modules {list(paths)}: no changed mutable default, no late-binding closure, no memoisation over '
-                                                f'object state, no self-storing descriptor')
+                                                f'object state, no self-storing descriptor, no unmangled private store')
     return n
